@@ -31,7 +31,7 @@ def c04Variant : String → Option Variant
   | "ser" => some .serial | "exe" => some .executor | "frk" => some .forked | _ => none
 
 def c04RmOrder : String → Option RmOrder
-  | "li" => some .listed | "mf" => some .metaFirst | "ml" => some .metaLast | _ => none
+  | "li" => some .sorted | "mf" => some .metaFirst | "ml" => some .metaLast | _ => none
 
 def c04Fault (s : String) : Option (Option Fault) :=
   if s == "none" then some none else
@@ -139,7 +139,7 @@ def handleC04 : List String → Option String
     let cs ← c04Chunks chunks
     let v ← c04Variant v
     let r ← parseBool r
-    let (c, _) := attempt FS.empty v r cs ⟨v, [], 0, false⟩ .listed none
+    let (c, _) := attempt FS.empty v r cs ⟨v, [], 0, false⟩ .sorted none
     pure <| showOps c.log.reverse
   | _ => none
 
